@@ -280,6 +280,22 @@ def oracle(abbr, cfg, r):
     return 'expand raised %s (not one of the two parse errors)' % r[1]
 
 
+def _cased_non_ascii(x):
+    return isinstance(x, str) and any(ord(c) > 127 and c.lower() != c.upper() for c in x)
+
+
+def case_mapping_outside_model(abbr, cfg):
+    """output.tagCase / output.attributeCase applied to a cased non-ASCII letter: str.upper()/lower() of the
+    implementation is Unicode-aware, the model's is exact on ASCII only (stated limit, DESIGN section 2)."""
+    o = cfg.get('options') or {}
+    if not (o.get('output.tagCase') or o.get('output.attributeCase')):
+        return False
+    parts = [abbr] + list((cfg.get('snippets') or {}).values()) + list((cfg.get('variables') or {}).values())
+    t = cfg.get('text')
+    parts += t if isinstance(t, list) else [t]
+    return any(_cased_non_ascii(x) for x in parts)
+
+
 def klass(r):
     """outcome class: the observable compared with the model."""
     return ('ok',) if r[0] == 'ok' else tuple(r)
@@ -652,14 +668,19 @@ def run_markup(ctx, model_ok=True):
                                        'config': canon_cfg(cfg), 'impl': repr(im)[:300], 'model': repr(mo)[:300]})
         elif mo[0] == 'ok' and mo[1] != im[1]:
             # the model covers every converter feature (markup.href included): the output text must agree as well
+            if case_mapping_outside_model(abbr, cs.cfgs[ci]):
+                # DESIGN section 2: lower/upper are exact on ASCII and the identity elsewhere in the model
+                ctx.cover('markup:not-text-compared(tagCase/attributeCase with cased non-ASCII letters)')
+                continue
             if 'Lorem' in mo[1]:
                 # a lorem name assembled by an escape / a variable (`lor\\em5`): the model wrote its marker for the random text
                 ctx.cover('markup:not-compared(lorem, seen in the model output)')
                 continue
             text_diff += 1
-            if text_diff <= 5:
+            if text_diff <= 12:
                 cfg = cs.cfgs[ci]
                 ctx.say('DISAGREE markup expand output %r cfg=%s\n  impl  %r\n  model %r' % (abbr, canon_cfg(cfg), str(im)[:300], str(mo)[:300]))
+            if text_diff <= 5:
                 ctx.broken.append({'kind': 'correspondence', 'file': 'markup-expand-output', 'input': abbr,
                                    'config': canon_cfg(cfg), 'impl': repr(im)[:300], 'model': repr(mo)[:300]})
     ctx.cov['correspondence']['markup_expand_outcome_class_and_output'] = {
